@@ -14,7 +14,7 @@ RULE = ('one case = one scripted server with a moduli policy (subset of {512,768
         'OpenSSH, Dropbear or unknown banner, audited for real (quick: all subsets of size <= 2 and all suffix subsets; thorough: all 511 subsets).  Oracle: reported size == model(min over the fixed probe sequence of what the policy hands out; '
         'OpenSSH + 2048 => answer to the 2048-3072-4096 probe) and == the same function of the GEX_REQUESTs the peer actually logged; differential 2048/3072 threshold oracle against a 4096-bit baseline; '
         'refusing / stalling / garbage servers get no size, and so does an OpenSSH server whose fallback answered 2048 but whose follow-up probe (alone) is refused, stalled, truncated or garbled.  Non-trivial: >= 1 GEX_REQUEST logged and a size verdict compared; distinct = distinct (policy, algorithms, banner)')
-REQUIRED = {'moduli_with_leading_ones': 20, 'sizes_not_multiple_of_8': 10, 'followup_faults_observed': 5, 'multi_target_sizes': 8, 'gex_requests_logged': 200, 'size_verdicts': 40, 'below_2048': 5, 'warn_band': 5, 'no_size_expected': 5, 'openssh_second_pass': 3, 'fault_cases': 3}
+REQUIRED = {'verdicts_with_per_algorithm_moduli': 6, 'moduli_with_leading_ones': 20, 'sizes_not_multiple_of_8': 10, 'followup_faults_observed': 5, 'multi_target_sizes': 8, 'gex_requests_logged': 200, 'size_verdicts': 40, 'below_2048': 5, 'warn_band': 5, 'no_size_expected': 5, 'openssh_second_pass': 3, 'fault_cases': 3}
 ASSUMPTIONS = ['moduli policies are monotone (a larger request never yields a smaller modulus)',
                'for sizes below 2048 only "at least one extra failure note" is demanded (the tool replaces the generic SHA-1 failure text of the sha1 variant by the size text)',
                'the OpenSSH explanatory note is demanded only when the follow-up probe returns a size different from 2048']
@@ -65,6 +65,12 @@ def cases(tier, seed):
                 cs.append({'kind': 'policy', 'sizes': s, 'style': style, 'banner': b, 'algs': a, 'render': 'json' if i % 3 == 0 else 'text', 'top_ones': i % 4 == 1})
     for i, order in enumerate([[2048, 4096, 1024], [1024, 2048, 4096, 3072], [4096, 2048, 2048, 8192], [3072, 1024, 2048]] if tier == 'quick' else [list(p_) for p_ in itertools.permutations([1024, 2048, 3072, 4096], 3)]):
         cs.append({'kind': 'multi', 'order': order, 'threads': [1, 2][i % 2], 'algs': [[GEX256], [GEX1, GEX256]][i % 2], 'render': ['json', 'text'][i % 2], 'style': 'strict', 'banner': 'unknown'})
+    # the two group-exchange algorithms answered from different moduli files: what the probes of one found (size, fallback, follow-up) says nothing about the other
+    pa = [({'sizes': [3072], 'style': 'openssh'}, {'sizes': [4096], 'style': 'strict'}), ({'sizes': [4096], 'style': 'strict'}, {'sizes': [3072], 'style': 'openssh'}),
+          ({'sizes': [1024], 'style': 'strict'}, {'sizes': [4096], 'style': 'strict'}), ({'sizes': [2048], 'style': 'strict'}, {'sizes': [3072, 4096], 'style': 'openssh'}), ({'sizes': [3072], 'style': 'openssh'}, {'sizes': [2048], 'style': 'strict'})]
+    for i, (g1, g256) in enumerate(pa):
+        for b in (('openssh',) if tier == 'quick' else ('openssh', 'unknown')):
+            cs.append({'kind': 'policy', 'sizes': g256['sizes'], 'style': g256['style'], 'banner': b, 'algs': [GEX1, GEX256], 'render': 'json' if i % 2 else 'text', 'gex_by_alg': {GEX1: g1, GEX256: g256}})
     faults = [('refuse', None), ('stall', {'at': 'gexgroup', 'op': 'stall_before'}), ('garbage', {'at': 'gexgroup', 'op': 'random', 'seed': 7}), ('truncated', {'at': 'gexgroup', 'op': 'truncate', 'offset': 9, 'then': 'close'}),
               ('close', {'at': 'gexgroup', 'op': 'close_before'}), ('wrong-type', {'at': 'gexgroup', 'op': 'patch', 'offset': 5, 'hex': '32'})]
     for name, f in faults:
@@ -214,6 +220,8 @@ def run_case(c):
               'hostkeys': {'ssh-ed25519': {'type': 'ed25519'}}, 'gex': gex, 'linger': 6}
     if c['kind'] == 'fault' and c['f']:
         script['faults'] = [dict(c['f'], conn='*')]
+    if c.get('gex_by_alg'):
+        script['gex_by_alg'] = c['gex_by_alg']
     args = (['-j'] if c['render'] == 'json' else ['-n']) + ['-t', '2']
     r, p = audit.audit_server(script, args, timeout=120)
     viol, counters = [], {}
@@ -246,12 +254,13 @@ def run_case(c):
         return {'violations': viol, 'counters': counters, 'nontrivial': True, 'sample': {'case': c, 'observed': obs}, 'sample_kind': 'fault'}
     # baseline for the differential rating: same algorithms, 4096 only
     sb = dict(script, gex={'sizes': [4096], 'style': 'strict'}, banner=BANNERS['unknown'])
+    sb.pop('gex_by_alg', None)
     rb, pb = audit.audit_server(sb, args, timeout=120)
     if rb.status not in (0, 2, 3):
         return {'verdict': 'inconclusive', 'why': 'baseline audit failed'}
     base = observe(rb, c['render'], c['algs'])
-    want, second = model(gex, c['banner'])
     for alg in c['algs']:
+        want, second = model((c.get('gex_by_alg') or {}).get(alg, gex), c['banner'])   # (a server may keep different moduli per group-exchange algorithm: each is judged by what it was handed)
         o = obs.get(alg)
         if o is None or alg not in base:
             viol.append(_v('C12/alg-missing', 'advertised group exchange absent from the report', alg=alg))
@@ -275,6 +284,7 @@ def run_case(c):
         counters['warn_band'] = counters.get('warn_band', 0) + (band == 'warn')
         counters['sizes_not_multiple_of_8'] = counters.get('sizes_not_multiple_of_8', 0) + (want % 8 != 0)
         counters['moduli_with_leading_ones'] = counters.get('moduli_with_leading_ones', 0) + bool(c.get('top_ones'))
+        counters['verdicts_with_per_algorithm_moduli'] = counters.get('verdicts_with_per_algorithm_moduli', 0) + bool(c.get('gex_by_alg'))
         ok = True
         if band == 'fail':
             ok = len(ex['fail']) >= 1 and not ex['warn']
